@@ -163,3 +163,41 @@ Example ex_concrete_client_key :
   | None => false
   end = true.
 Proof. vm_compute. reflexivity. Qed.
+
+(* ---- (ii') Read as two selects: which of the two added steps is needed ---- *)
+(* the window: Read finds the queue empty, recvLoop then queues the last message
+   (it came with an error) and closes, Read enters the blocking select with both cases ready *)
+Definition ex_window : list h2op := [ORStart; OLoop; OLoop; OREnterC; ORDrain; ORStart].
+Definition ex_last : mscript := [([7; 8], Some 30)].
+
+(* the fixed code (both steps): the message, with its error, before closed *)
+Example ex_window_fixed :
+  snd (h2_run 3 ex_hb true true (h2_init ex_last) ex_window) = [ONone; ONone; ONone; ONone; OGot ([7; 8], Some 30); ONone].
+Proof. vm_compute. reflexivity. Qed.
+(* without the non-blocking receive but with the inner drain: still correct (the theorems cover it) *)
+Example ex_window_no_fast :
+  snd (h2_run 3 ex_hb false true (h2_init ex_last) ex_window) = [ONone; ONone; ONone; ONone; OGot ([7; 8], Some 30); ONone].
+Proof. vm_compute. reflexivity. Qed.
+(* without the inner drain: net.ErrClosed while the message is still queued -- and the
+   message comes out of a later Read, after the error *)
+Example ex_window_no_drain :
+  snd (h2_run 3 ex_hb true false (h2_init ex_last) ex_window) = [ONone; ONone; ONone; OErrClosed; ONone; OGot ([7; 8], Some 30)].
+Proof. vm_compute. reflexivity. Qed.
+(* the pre-fix Read (neither step) loses in the same way, and needs no window at all:
+   everything queued and closed before Read is even called *)
+Example ex_prefix_read :
+  snd (h2_run 3 ex_hb false false (h2_init ex_last) [OLoop; OLoop; ORStart; OREnterC]) = [ONone; ONone; ONone; OErrClosed].
+Proof. vm_compute. reflexivity. Qed.
+
+(* the full queue: 64 messages queued, the 65th held by recvLoop; a pop hands it over ... *)
+Definition ex_many : mscript := map (fun i => ([N.of_nat i], None)) (seq 1 70).
+Example ex_full_queue_handover :
+  let '(st, _) := h2_run 3 ex_hb true true (h2_init ex_many) (repeat OLoop 66 ++ [ORStart]) in
+  length (h2q st) = 64%nat /\ h2loop st = LRead /\ last (h2q st) ([], None) = ([65], None) /\ length (h2raw st) = 5%nat.
+Proof. vm_compute. auto. Qed.
+(* ... or the interval elapses: recvLoop closes, the reader still gets the 64 queued messages, then closed *)
+Example ex_full_queue_timeout :
+  let '(st, os) := h2_run 3 ex_hb true true (h2_init ex_many)
+                     (repeat OLoop 66 ++ [OTimeout] ++ repeat ORStart 64 ++ [ORStart; OREnterC; ORDrain]) in
+  length (got2 os) = 64%nat /\ last os ONone = OErrClosed /\ h2loop st = LStop.
+Proof. vm_compute. auto. Qed.
